@@ -104,6 +104,7 @@ type rig struct {
 	outside *ecdsa.PrivateKey
 	d       msgData
 	cache   map[string][]byte
+	zero    map[int]bool // members listed in the keyper set with the zero address: nobody can sign for them
 }
 
 func newRig(flavour string, n int, nids int, sizeOK bool) *rig {
@@ -204,6 +205,15 @@ func (r *rig) sig(kind string, pos int, signers []uint64) []byte {
 		for i := range out {
 			out[i] = byte(i*7 + pos)
 		}
+	case "z": // 65 zero bytes: nothing can be recovered from it
+		out = make([]byte, 65)
+	case "h": // a proper signature by an outsider with a recovery id that does not exist
+		out = append([]byte{}, signWith(r.outside, h)...)
+		out[64] = 7
+	case "e":
+		out = []byte{}
+	case "4": // 64 bytes: r and s without the recovery id
+		out = append([]byte{}, signWith(r.outside, h)[:64]...)
 	default:
 		out = []byte{1, 2, 3}
 	}
@@ -246,7 +256,7 @@ func (r *rig) genuine(threshold int, signers []uint64, sigs [][]byte) bool {
 		return len(sigs) == 0
 	}
 	for i, sg := range sigs {
-		if len(sg) != 65 {
+		if len(sg) != 65 || r.zero[int(signers[i])] {
 			return false
 		}
 		pub := crypto.FromECDSAPub(&r.keys[signers[i]].PublicKey)
@@ -423,6 +433,45 @@ func Run(cfg Config) (int, error) {
 				}
 			}
 		}
+		if out == "accept" && len(sigs) > 0 { // and so must changing any signature
+			for i := range sigs {
+				if i > 1 && i != len(sigs)-1 {
+					continue
+				}
+				for f := 0; f < 5; f++ {
+					sg := append([]byte{}, sigs[i]...)
+					switch f {
+					case 0:
+						sg = append(sg, 0)
+					case 1:
+						sg = append(sg, 0x1b, 0x55)
+					case 2:
+						if len(sg) != 65 || sg[64] != 0 {
+							continue
+						}
+						sg = sg[:64]
+					case 3:
+						if len(sg) != 65 {
+							continue
+						}
+						sg[64] += 27
+					default:
+						if len(sg) < 11 {
+							continue
+						}
+						sg[10] ^= 4
+					}
+					sigs2 := append([][]byte{}, sigs...)
+					sigs2[i] = sg
+					o2, _ := validate(rg.flavour, rg.d, rg.keyperSet(threshold), signers, sigs2)
+					res.Count("tamper-signature:" + o2)
+					if o2 == "accept" {
+						violate("spec", "tamper-accepted", fmt.Sprintf("accepted after changing signature %d (change %d: 0 a zero byte appended, 1 two bytes appended, 2 recovery id 0 cut off, 3 recovery id + 27, 4 one bit of r): %s", i, f, line), []string{line})
+						return false
+					}
+				}
+			}
+		}
 		items = append(items, item{line, out})
 		if len(res.Samples) < 4 && out == "accept" {
 			res.Sample(map[string]interface{}{"line": line, "signature_kinds": sigKinds, "impl": out})
@@ -489,6 +538,46 @@ func Run(cfg Config) (int, error) {
 			}
 			if !runCase(rg, t, sl, kl) {
 				break
+			}
+		}
+	}
+	// a keyper set that lists the zero address as a member (nobody holds its key): whatever stands at its position
+	// in the signature list, the message does not carry a genuine threshold
+	for _, flavour := range []string{"gnosis", "service"} {
+		for n := 2; n <= 4 && len(res.Violations) == 0; n++ {
+			for z := 0; z < n; z++ {
+				rg := newRig(flavour, n, 1+z%2, true)
+				rg.addrs[z] = common.Address{}
+				rg.zero = map[int]bool{z: true}
+				for t := 1; t <= n; t++ {
+					// the zero member and the t-1 members after it (cyclically), in increasing order
+					in := map[int]bool{}
+					for k := 0; k < t; k++ {
+						in[(z+k)%n] = true
+					}
+					sl := []string{}
+					for i := 0; i < n; i++ {
+						if in[i] {
+							sl = append(sl, fmt.Sprint(i))
+						}
+					}
+					for _, zk := range []string{"s", "g", "l", "z", "h", "e", "4", "o"} {
+						kl := []string{}
+						for i := 0; i < n; i++ {
+							if in[i] {
+								if i == z {
+									kl = append(kl, zk)
+								} else {
+									kl = append(kl, "s")
+								}
+							}
+						}
+						res.Count("zero-address-member")
+						if !runCase(rg, t, sl, kl) {
+							goto done
+						}
+					}
+				}
 			}
 		}
 	}
